@@ -1,6 +1,8 @@
 package sync
 
 import (
+	"fmt"
+
 	"verifharness/internal/corr"
 )
 
@@ -230,7 +232,7 @@ func exhaustive(r *corr.Run, run func(n int, batch int, body func(w *world)) boo
 		return true
 	}
 	complete := true
-	for depth := 1; depth <= 7 && r.Issues() == 0; depth++ {
+	for depth := 1; depth <= 7 && violations == 0; depth++ {
 		total := 1
 		for i := 1; i < depth; i++ {
 			total *= alphabet
@@ -239,7 +241,7 @@ func exhaustive(r *corr.Run, run func(n int, batch int, body func(w *world)) boo
 		// visit the codes of this depth in a seed-dependent order (an odd stride is a permutation
 		// of 0..8^k-1), so that different seeds cover different parts of a depth that does not fit
 		offset, stride := r.Intn(total), 2*r.Intn(total/2+1)+1
-		for first := 0; first <= 2 && r.Issues() == 0; first += 2 {
+		for first := 0; first <= 2 && violations == 0; first += 2 {
 			for k := 0; k < total; k++ {
 				code := (offset + k*stride) % total
 				if !r.TimeLeft() {
@@ -268,7 +270,7 @@ func exhaustive(r *corr.Run, run func(n int, batch int, body func(w *world)) boo
 				} else {
 					r.Count("schedule.exhaustive.pruned")
 				}
-				if r.Issues() > 0 {
+				if violations > 0 {
 					break
 				}
 			}
@@ -278,4 +280,106 @@ func exhaustive(r *corr.Run, run func(n int, batch int, body func(w *world)) boo
 		}
 	}
 	r.SetExhaustive(complete)
+}
+
+// settle delivers (FIFO, until quiescent) everything in flight except messages from or to the
+// partitioned replicas, which are dropped.
+func (w *world) settle(partitioned ...int) {
+	cut := func(m *message) bool {
+		for _, p := range partitioned {
+			if m.from == p || m.to == p {
+				return true
+			}
+		}
+		return false
+	}
+	for n := 0; len(w.net) > 0 && n < maxDrain && !w.failed; n++ {
+		if m := w.net[0]; cut(m) {
+			w.stepDrop(m)
+		} else {
+			w.stepDeliver(m)
+		}
+	}
+}
+
+// staleForkFamily: replica 0 writes k consecutive snapshots (optionally with plain changes in
+// between); replica 1 follows everything, so 0 and 1 are reduced to the newest snapshot and have
+// computed their snapshot paths; replica 2 was partitioned after snapshot j (j = 0: before the
+// first one). Then 2 writes a change — it forks off before snapshot j+1 — and that change reaches
+// only `recv`, whose in-memory root has to move BACK to an older snapshot. The other up-to-date
+// replica then asks `recv` for a full sync (its root is still the newest snapshot), and the usual
+// anti-entropy phase follows. Aimed at: snapshot path after the root moved back, common snapshot of
+// two paths of different length, rebuild from storage at an older snapshot, head updates that
+// carry the path.
+func staleForkFamily(r *corr.Run) []scenario {
+	var out []scenario
+	maxK := r.Pick(3, 4)
+	for k := 2; k <= maxK; k++ {
+		for j := 0; j < k; j++ {
+			for recv := 0; recv <= 1; recv++ {
+				for between := 0; between <= 1; between++ {
+					for forward := 0; forward <= 1; forward++ {
+						for variant := 0; variant <= 3; variant++ {
+							k, j, recv, between, forward := k, j, recv, between, forward
+							// early: requests are built while the root is the newest snapshot;
+							// author: recv writes on top of the stale change before anybody syncs
+							early, author := variant&1, variant>>1
+							name := fmt.Sprintf("stale fork k=%d j=%d recv=%d between=%d forward=%d earlysync=%d author=%d", k, j, recv, between, forward, early, author)
+							out = append(out, scenario{name, 3, 0, func(w *world) {
+								other := 1 - recv
+								w.stepAdd(0, false)
+								w.settle()
+								for i := 1; i <= k && !w.failed; i++ {
+									if between == 1 {
+										w.stepAdd(0, false)
+									}
+									w.stepAdd(0, true)
+									if i <= j {
+										w.settle()
+									} else {
+										w.settle(2)
+									}
+								}
+								if early == 1 {
+									// both up-to-date replicas build a request (snapshot path of the newest root)
+									w.stepSync(recv, other)
+									w.stepSync(other, recv)
+									w.settle(2)
+								}
+								// the partitioned replica writes on top of what it has
+								w.stepAdd(2, false)
+								if between == 1 {
+									w.stepAdd(2, false)
+								}
+								for m := w.first(kHU, 2, other); m != nil && !w.failed; m = w.first(kHU, 2, other) {
+									w.stepDrop(m)
+								}
+								for m := w.first(kHU, 2, recv); m != nil && !w.failed; m = w.first(kHU, 2, recv) {
+									w.stepDeliver(m)
+								}
+								if author == 1 && !w.failed {
+									w.stepAdd(recv, false) // on top of the newest snapshot's branch and the stale fork
+								}
+								// what recv forwards / asks: lost, or delivered among 0 and 1 only
+								if forward == 0 {
+									w.dropAll()
+								} else {
+									w.settle(2)
+									w.dropAll()
+								}
+								// exactly one round, the up-to-date replica meets recv before it meets
+								// the author of the stale change (one pass over all pairs must do)
+								if recv == 0 {
+									w.phase = [][2]int{{other, recv}, {other, 2}, {recv, 2}}
+								} else {
+									w.phase = [][2]int{{recv, other}, {2, other}, {2, recv}}
+								}
+							}})
+						}
+					}
+				}
+			}
+		}
+	}
+	return out
 }
